@@ -266,6 +266,7 @@ def check_c18(run: Run, prog: Program) -> None:
         "checks are compensated by ~is_zero(). NOT decided: geometric correctness of the meets and of contains."
     )
     n = intersect.rule_F(run, prog)
+    run.stats["operand_carrier_rebindings"] = intersect.rule_F7(run, prog)
     run.floor("intersect implementations", n, 3)
     run.floor("filter obligations", sum(1 for o in run.obligations if o.rule == "E10.F1"), 2)
     run.stats["intersect_methods"] = n
